@@ -68,6 +68,31 @@ theorem rule_call_bool (s : Store) (w : World) (h : Nat) (f x y : AST) (sp : Spa
       List.contains_cons, List.contains_nil, Bind.bind, Comp.bind, pure]
     cases b <;> exact .ret _ _ _ _
 
+/-- **call of a list**: the function part evaluates to a list; the (single) argument is demanded and must be an integer;
+the element at that position is handed over *unevaluated* (a tail return) — no other element is touched -/
+theorem rule_call_list (s : Store) (w : World) (h : Nat) (f a : AST) (sp : Span) (env : Env)
+    (xs : List Arg) (i : Int) (x : Arg) (s1 s2 : Store) (h2 : Nat) (hf : tagOf f = none)
+    (hcallee : Eval (allocArgs (alloc s f env) env [a]).1 w (.frame s.cells.size) h
+        (.ok (.arg (.strict (.list xs)))) s1 w)
+    (harg : Forces s1 w (s.cells.size + 1) (.int i) h2 s2) (hh : h2 ≤ h)
+    (hidx : pyIndex xs i = some x) :
+    Eval s w (.comp (bodyOf (.call f [a] sp) env)) h (.ok (.arg x)) s2 w := by
+  simp only [bodyOf, interpret_call_nonlit f [a] sp env hf, Bind.bind, Comp.bind]
+  refine .newThunk ?_
+  rw [bind_assoc]
+  refine eval_mkThunks env w h _ _ _ [a] _ (alloc s f env) ?_
+  simp only [strictFunctional, forceArg]
+  refine .forceEvalOk ?_ hcallee ?_
+  · rw [allocArgs_getCell env [a] _ _ (by simp [alloc]), getCell_alloc_new]
+  · simp only [checkType, Val.isCallable, Val.isFunction, Val.isBoolean, Val.isSequence, Val.isList, List.all_cons, List.all_nil,
+      Bool.and_true, Bool.true_or, Bool.or_true, Bool.false_or, if_true, Comp.bind, pure, checkCallee, callArg]
+    refine .callOk (x := .arg x) (s1 := s2) (w1 := w) ?_ (.ret _ _ _ _)
+    simp only [expand, applyCallee, matchArguments, checkArity, forceAll, forceArg, allocArgs, alloc, Heap.size_push,
+      List.length_cons, List.length_nil, List.contains_cons, List.contains_nil, Bind.bind, Comp.bind, pure]
+    refine harg h hh _ _ _ _ _ ?_
+    simp only [Comp.bind, checkType, Val.isInteger, List.all_cons, List.all_nil, Bool.and_true, if_true, hidx]
+    exact .ret _ _ _ _
+
 theorem expand_keyOf_int (s : Store) (w : World) (h : Nat) (x : Int) :
     Eval s w (.comp (expand (.keyOf (.int x)))) h (.ok (.key (Num.int x).key)) s w := by
   simp only [expand, keyOf, Bind.bind, Comp.bind, pure]
